@@ -21,5 +21,5 @@ Definition mk_cfg (depth : Z) (nosort nonull noreduce multicut : bool) (evk : N)
      c_eval := if (evk =? 1)%N then evaluate_winner else default_eval |}.
 
 Definition run_analyze (cfg : config) (k : Z) (s : sstate) (p : position) := analyze_cancel gen_basis cfg k s p.
-Definition run_analyze_all (cfg : config) (s : sstate) (p : position) := analyze_all gen_basis cfg (with_cancel s 0) p.
-Definition run_analyze_pinned (cfg : config) (k : Z) (s : sstate) (p : position) := analyze_pinned gen_basis cfg (with_cancel s k) p.
+Definition run_analyze_all (cfg : config) (s : sstate) (p : position) := analyze_all gen_basis cfg s p.
+Definition run_analyze_pinned (cfg : config) (k : Z) (s : sstate) (p : position) := analyze_pinned gen_basis cfg k s p.
